@@ -857,3 +857,13 @@ Section Composed.
     flat5 (run_for_each [] so f g pan (pipe_of gen_boxed_generate nd) N) = generate_ N f pan.
   Proof. rewrite boxed_generate_same_loop. split; apply tie_generate. Qed.
 End Composed.
+
+(* how generate obtains its destination and hands it back: on the stack an uninitialised array and
+   array_assume_init; in the boxed form Box::new_uninit -- so that a zero-sized array requests nothing,
+   a failed allocation goes through handle_alloc_error and the Box<MaybeUninit<..>> frees the block
+   when the caller's function panics (HeapOps.boxed_generate: box_new_uninit .. std_free) -- and
+   Box::from_raw of the same pointer *)
+Lemma tie_generate_frames :
+  gen_generate_frame = ("GenericArray::uninit", "IntrusiveArrayBuilder::array_assume_init(array)") /\
+  gen_boxed_generate_frame = ("Box::new_uninit", "Box::from_raw(Box::into_raw(..).cast())").
+Proof. split; reflexivity. Qed.
